@@ -30,7 +30,7 @@ UNPROVED = ["CONVERGENCE IS NOT PROVED: success within O(n) iterations on SPD / 
 MANIFEST = dict(
     text=("Theorems about the Gallina model of the four solvers (BiCG after the repair d2fe329). Over any field, ANY square-root function with sqrt 0 = 0, "
           "every matrix given as a linear product, every size, budget and tolerance >= 0: exact_guess_ok0 (b - A x0 = 0 => Ok 0, x0 untouched, all solvers, both "
-          "BiCG error measures) and zero_rhs_zero_guess_ok0. Over ANY arithmetic, floats included: startup_accepts (if the start-up residual the code forms "
+          "BiCG error measures), exact_guess_ok0_rows (the same for EVERY square matrix given as its list of rows) and zero_rhs_zero_guess_ok0. Over ANY arithmetic, floats included: startup_accepts (if the start-up residual the code forms "
           "passes the code's test, Ok 0 with x0 untouched) and zero_budget_keeps_x. The pre-repair BiCG is kept in coq/Legacy/C09Refuted.v with "
           "bicg_legacy_refuted (float instance: Err nan, x = nan on diag(2,3), b=(2,3), x0=(1,1)). The CONVERGENCE half (Ok within 3n+10 iterations on SPD / "
           "strictly diagonally dominant systems of condition <= 1e4, agreement with the direct solution) is NOT proved: it is a failing-input search against "
